@@ -4,10 +4,12 @@
  *   rewrite <pattern>           -> "E" when lys_compile_type_pattern_check() fails before it calls
  *                                  pcre2_compile(), else the hex of the text handed to pcre2_compile()
  *                                  (whether or not PCRE2 then accepts it)
- *   match <pattern> <string>    -> "<a> <b>": a = ly_pattern_match() (public utility), b = lyd_value_validate()
- *                                  on leaf l of a module compiled on the fly with "pattern <pattern>";
- *                                  each is 1 (match), 0 (no match) or E (pattern rejected / other error)
- *   matchinv <pattern> <string> -> "<b>" as above with "modifier invert-match"
+ *   match <pattern> <string>+   -> per string "<a> <b>" (joined by ','): a = ly_pattern_match() (public utility),
+ *                                  b = lyd_value_validate() on leaf l of a module compiled on the fly with
+ *                                  "pattern <pattern>"; each is 1 (match), 0 (no match) or E (pattern rejected /
+ *                                  other error)
+ *   matchlist <string> (<inv> <pattern>)*  -> lyd_value_validate() on a leaf whose type has all the listed
+ *                                  patterns, those with inv = 1 carrying "modifier invert-match": 1 / 0 / E
  *
  * Must be linked with -Wl,--wrap=pcre2_compile_8 (Comp.extra_cflags): __wrap_pcre2_compile_8 records
  * the pattern text and calls the real function.
@@ -47,15 +49,14 @@ log_cb(LY_LOG_LEVEL level, const char *msg, const char *data_path, const char *s
     (void)level; (void)msg; (void)data_path; (void)schema_path; (void)line;
 }
 
-/* module text with the pattern as a YANG string: single-quoted (verbatim) unless it contains a single quote,
+/* append the pattern as a YANG string: single-quoted (verbatim) unless it contains a single quote,
  * then double-quoted with backslash, double quote, LF and TAB escaped */
 static char *
-module_text(const char *pat, size_t len, int invert)
+put_pattern(char *p, const char *pat, size_t len, int invert)
 {
-    char *m = malloc(2 * len + 512), *p;
     int dq = memchr(pat, '\'', len) != NULL;
 
-    p = m + sprintf(m, "module m {yang-version 1.1; namespace \"urn:m\"; prefix m; leaf l {type string {pattern %c", dq ? '"' : '\'');
+    p += sprintf(p, " pattern %c", dq ? '"' : '\'');
     for (size_t i = 0; i < len; i++) {
         if (dq && ((pat[i] == '\\') || (pat[i] == '"'))) {
             *p++ = '\\';
@@ -70,39 +71,57 @@ module_text(const char *pat, size_t len, int invert)
             *p++ = pat[i];
         }
     }
-    sprintf(p, "%c%s}}}", dq ? '"' : '\'', invert ? " {modifier invert-match;}" : ";");
-    return m;
+    p += sprintf(p, "%c%s", dq ? '"' : '\'', invert ? " {modifier invert-match;}" : ";");
+    return p;
 }
 
-/* cache of the last compiled module: consecutive cases with the same pattern reuse it */
+/* cache of the last compiled module: consecutive cases with the same patterns reuse it */
 static struct ly_ctx *mctx = NULL;
-static char *mpat = NULL;
-static size_t mpat_len = 0;
-static int minv = -1;
+static char *mkey = NULL;
 static const struct lysc_node *mleaf = NULL;
 
+/* leaf l of module m with the n patterns pats[i] (hex fields), inverted when invs[i] is "1" */
 static const struct lysc_node *
-leaf_for(const char *pat, size_t len, int invert)
+leaf_for(int n, char **invs, char **pats)
 {
-    char *txt;
+    char *key, *txt, *p;
+    size_t klen = 1, tlen = 512;
     struct lys_module *mod = NULL;
 
-    if (mpat && (mpat_len == len) && !memcmp(mpat, pat, len) && (minv == invert)) {
+    for (int i = 0; i < n; i++) {
+        klen += strlen(invs[i]) + strlen(pats[i]) + 2;
+        tlen += strlen(pats[i]) + 64;
+    }
+    key = malloc(klen);
+    key[0] = 0;
+    for (int i = 0; i < n; i++) {
+        strcat(key, invs[i]);
+        strcat(key, " ");
+        strcat(key, pats[i]);
+        strcat(key, " ");
+    }
+    if (mkey && !strcmp(mkey, key)) {
+        free(key);
         return mleaf;
     }
     ly_ctx_destroy(mctx);
     mctx = NULL;
     mleaf = NULL;
-    free(mpat);
-    mpat = malloc(len + 1);
-    memcpy(mpat, pat, len);
-    mpat[len] = 0;
-    mpat_len = len;
-    minv = invert;
+    free(mkey);
+    mkey = key;
     if (ly_ctx_new(NULL, 0, &mctx)) {
         return NULL;
     }
-    txt = module_text(pat, len, invert);
+    txt = malloc(tlen);
+    p = txt + sprintf(txt, "module m {yang-version 1.1; namespace \"urn:m\"; prefix m; leaf l {type string {");
+    for (int i = 0; i < n; i++) {
+        size_t len;
+        char *pat = vunhex(pats[i], &len);
+
+        p = put_pattern(p, pat, len, invs[i][0] == '1');
+        free(pat);
+    }
+    sprintf(p, "}}}");
     if (!lys_parse_mem(mctx, txt, LYS_IN_YANG, &mod) && mod && mod->compiled) {
         mleaf = lys_find_path(mctx, NULL, "/m:l", 0);
     }
@@ -111,9 +130,9 @@ leaf_for(const char *pat, size_t len, int invert)
 }
 
 static char
-validate(const char *pat, size_t plen, const char *str, size_t slen, int invert)
+validate(int n, char **invs, char **pats, const char *str, size_t slen)
 {
-    const struct lysc_node *leaf = leaf_for(pat, plen, invert);
+    const struct lysc_node *leaf = leaf_for(n, invs, pats);
     LY_ERR r;
 
     if (!leaf) {
@@ -129,6 +148,7 @@ main(void)
 {
     struct vcase c;
     struct ly_ctx *ctx = NULL;
+    char *zero = "0";
 
     ly_set_log_clb(log_cb);
     if (ly_ctx_new(NULL, 0, &ctx)) {
@@ -156,20 +176,29 @@ main(void)
             free(pat);
         } else if (!strcmp(comp, "match") && (c.nf >= 3)) {
             size_t plen, slen;
-            char *pat = vunhex(c.f[1], &plen), *str = vunhex(c.f[2], &slen);
-            LY_ERR r;
+            char *pat = vunhex(c.f[1], &plen);
 
-            r = ly_pattern_match(ctx, pat, str, (uint32_t)slen, NULL);
-            ly_err_clean(ctx, NULL);
-            printf("%c %c", (r == LY_SUCCESS) ? '1' : ((r == LY_ENOT) ? '0' : 'E'), validate(pat, plen, str, slen, 0));
-            free(pat);
-            free(str);
-        } else if (!strcmp(comp, "matchinv") && (c.nf >= 3)) {
-            size_t plen, slen;
-            char *pat = vunhex(c.f[1], &plen), *str = vunhex(c.f[2], &slen);
+            for (int i = 2; i < c.nf; i++) {
+                char *str = vunhex(c.f[i], &slen);
+                LY_ERR r;
 
-            printf("%c", validate(pat, plen, str, slen, 1));
+                r = ly_pattern_match(ctx, pat, str, (uint32_t)slen, NULL);
+                ly_err_clean(ctx, NULL);
+                printf("%s%c %c", (i > 2) ? "," : "", (r == LY_SUCCESS) ? '1' : ((r == LY_ENOT) ? '0' : 'E'),
+                        validate(1, &zero, &c.f[1], str, slen));
+                free(str);
+            }
             free(pat);
+        } else if (!strcmp(comp, "matchlist") && (c.nf >= 2)) {
+            size_t slen;
+            char *str = vunhex(c.f[1], &slen), *invs[VMAXF], *pats[VMAXF];
+            int n = 0;
+
+            for (int i = 2; i + 1 < c.nf; i += 2) {
+                invs[n] = c.f[i];
+                pats[n++] = c.f[i + 1];
+            }
+            printf("%c", validate(n, invs, pats, str, slen));
             free(str);
         } else {
             printf("?");
@@ -179,6 +208,6 @@ main(void)
     ly_ctx_destroy(mctx);
     ly_ctx_destroy(ctx);
     free(seen_pat);
-    free(mpat);
+    free(mkey);
     return 0;
 }
